@@ -329,7 +329,7 @@ def oracle(case, pos, model, only_mean=False, cond_pos=None, cond_val=None):
     else:
         est, var, cnd, rawv = okr.krige(model.covariance, sill, spec["var"], iso(spec, cp), iso(spec, pos), z, err=err,
                                         unbiased=is_unbiased(cfg), drift_cond=dc, drift_tgt=dt, exact=cfg["exact"],
-                                        zero_tol=1e-8 * float(spec["len_scale"]) / float(spec.get("rescale") or getattr(model, "rescale", 1.0)))
+                                        zero_tol=1e-8 * min(1.0, float(spec["len_scale"]) / float(spec.get("rescale") or getattr(model, "rescale", 1.0))))
     tr = trend_fn(cfg.get("trend", "none"), fdim)
     trt = tr(*pos) if callable(tr) else (tr or 0.0)
     mu = 0.0
@@ -375,9 +375,9 @@ def zero_lag_ambiguous(case, pos):
     fdim = field_dim(spec)
     cp = np.array(case["cond_pos"], dtype=float).reshape(fdim, -1)
     d = okr.pairwise(iso(spec, cp), iso(spec, np.asarray(pos, dtype=float).reshape(fdim, -1)))
-    # the zero-lag window is 1e-8 correlation lengths (since repo fix: non-dimensional lag); for correlation lengths of order one also 1e-8
-    # in absolute terms - both edges count as ambiguous
-    w = 1e-8 * float(spec["len_scale"]) / float(spec.get("rescale") or 1.0)
+    # the zero-lag window is 1e-8 * min(1, correlation length) (repo fixes 63aabb8 / follow-up); the edge of the former absolute window
+    # counts as ambiguous as well
+    w = 1e-8 * min(1.0, float(spec["len_scale"]) / float(spec.get("rescale") or 1.0))
     return bool(np.any((d > 0.5e-8) & (d < 2e-8)) or np.any((d > 0.3 * w) & (d < 3.0 * w)))
 
 
